@@ -328,6 +328,8 @@ func (c *DoHClient) Close() { c.hc.CloseIdleConnections() }
 type DoQClient struct {
 	tr   *quic.Transport
 	conn quic.Connection
+	// LateFin: Exchange closes the sending side of its stream only after it has read the response.
+	LateFin bool
 }
 
 func DialDoQ(localIP, remote string, tlsCfg *tls.Config) (*DoQClient, error) {
@@ -378,7 +380,13 @@ func (c *DoQClient) Exchange(raw []byte, timeout time.Duration) DoQResult {
 		r.Err = err
 		return r
 	}
-	st.Close()
+	if c.LateFin {
+		// keep the sending side of the stream open until the response has been read (a client whose
+		// STREAM FIN travels separately, late, or only once it has what it came for)
+		defer st.Close()
+	} else {
+		st.Close()
+	}
 	st.SetReadDeadline(time.Now().Add(timeout))
 	var pending []byte
 	buf := make([]byte, 65536)
